@@ -267,6 +267,58 @@ func applyCorruption(n *node.Node, c C07Corr, start, limit uint64, reqs []node.R
 		}
 		replies[1].Result = enc(logs)
 		return 200, encode(), true
+	case "reorder_receipts":
+		// benign: the receipts of one block in another order (each still names
+		// its own transaction): must be attached by name, or refused
+		if kind != "receipts" || e >= len(replies) {
+			return 0, nil, false
+		}
+		rs := asArr(replies[e].Result)
+		if len(rs) < 2 {
+			return 0, nil, false
+		}
+		if c.Arg%2 == 0 {
+			rs = append(rs[1:], rs[0]) // rotate
+		} else {
+			for i, j := 0, len(rs)-1; i < j; i, j = i+1, j-1 {
+				rs[i], rs[j] = rs[j], rs[i]
+			}
+		}
+		replies[e].Result = enc(rs)
+		return 200, encode(), true
+	case "reorder_logs":
+		if kind != "logs" || len(replies) < 2 {
+			return 0, nil, false
+		}
+		logs := asArr(replies[1].Result)
+		if len(logs) < 2 {
+			return 0, nil, false
+		}
+		if c.Arg%2 == 0 {
+			logs = append(logs[1:], logs[0])
+		} else {
+			for i, j := 0, len(logs)-1; i < j; i, j = i+1, j-1 {
+				logs[i], logs[j] = logs[j], logs[i]
+			}
+		}
+		replies[1].Result = enc(logs)
+		return 200, encode(), true
+	case "reorder_txs":
+		if kind != "blocks" || e >= len(replies) {
+			return 0, nil, false
+		}
+		o := asObj(replies[e].Result)
+		if o == nil {
+			return 0, nil, false
+		}
+		txs, _ := o["transactions"].([]any)
+		if len(txs) < 2 {
+			return 0, nil, false
+		}
+		txs = append(txs[1:], txs[0])
+		o["transactions"] = txs
+		replies[e].Result = enc(o)
+		return 200, encode(), true
 	case "move_receipt_in", "move_receipt_out", "move_first_receipt_in":
 		if kind != "receipts" {
 			return 0, nil, false
@@ -899,7 +951,8 @@ var c07NeedSets = [][]string{
 	{"tx_signer", "tx_nonce"},
 }
 var c07Kinds = []string{"status", "non_json", "wrong_shape", "truncate", "drop", "dup", "swap", "null", "error", "renumber", "break_parent", "break_hash",
-	"move_log_in", "move_log_out", "move_log_tx", "move_receipt_in", "move_first_receipt_in", "move_receipt_out", "move_trace_in", "move_first_trace_in", "move_trace_out"}
+	"move_log_in", "move_log_out", "move_log_tx", "move_receipt_in", "move_first_receipt_in", "move_receipt_out", "move_trace_in", "move_first_trace_in", "move_trace_out",
+	"reorder_receipts", "reorder_logs", "reorder_txs"}
 
 var (
 	c07Once  sync.Once
@@ -931,7 +984,7 @@ func c07Init() {
 						for _, kind := range c07Kinds {
 							elems := 1
 							switch kind {
-							case "drop", "dup", "swap", "null", "error", "renumber", "break_parent", "break_hash", "move_receipt_in", "move_first_receipt_in", "move_receipt_out":
+							case "drop", "dup", "swap", "null", "error", "renumber", "break_parent", "break_hash", "move_receipt_in", "move_first_receipt_in", "move_receipt_out", "reorder_receipts", "reorder_txs":
 								elems = int(limit)
 								if elems < 2 {
 									elems = 2
@@ -945,7 +998,7 @@ func c07Init() {
 								args = 6
 							case "renumber":
 								args = 3
-							case "move_log_in", "move_log_tx", "move_trace_in":
+							case "move_log_in", "move_log_tx", "move_trace_in", "reorder_receipts", "reorder_logs":
 								args = 2
 							case "move_log_out", "move_receipt_out", "move_trace_out":
 								args = 3
